@@ -668,7 +668,8 @@ theorem zombiePrune_only_removes (cfg : Cfg) (strict fixed : Bool) (now : Nat) (
 
 /-- one elementary transition of the gossip intake: a message going through `submit` (under a
     configuration with the same validation switches), the bookkeeping of a new block (height and
-    future-message queue only), or the pruning of a closed channel -/
+    future-message queue only), the pruning of a closed channel, `DeleteChannelEdges(strict,
+    markZombie)` + `PruneGraphNodes` of one channel, or a tick of the builder's zombie pruning -/
 inductive Micro (cfg : Cfg) (self : Key) : State → State → Prop where
   | msg (cfg' : Cfg) (hav : cfg'.assumeValid = cfg.assumeValid) (hex : cfg'.expiry = cfg.expiry)
       (now : Nat) (s : State) (p : Peer) (m : Msg) : Micro cfg self s (submit cfg' now s p m).2.st
@@ -691,7 +692,8 @@ theorem Reach.trans {cfg : Cfg} {self : Key} {a b c : State} (h1 : Reach cfg sel
   | step _ hm ih => exact Reach.step ih hm
 
 /-- the events of a history: a remote message, a new block (which replays the matured future
-    messages), the pruning of a channel whose funding output was spent -/
+    messages), the pruning of a channel whose funding output was spent, the deletion of a zombie
+    channel, a zombie-prune tick -/
 inductive Event where
   | msg (now : Nat) (p : Peer) (m : Msg)
   | block (now : Nat) (h : Nat)
